@@ -430,6 +430,8 @@ fn need_quotes(string: &str) -> bool {
         || string.starts_with("0x")
         || string.parse::<i64>().is_ok()
         || string.parse::<f64>().is_ok()
+        // Anything else that would not be read back as a string (`0o17`, `+.inf`, ...).
+        || !matches!(Scalar::parse_from_cow(string.into()), Scalar::String(_))
 }
 
 #[cfg(test)]
